@@ -309,6 +309,8 @@ def gen_picklable(rng, depth=0):
 
 
 def run(ctx):
+    from rv import suiterun
+    suiterun.for_check(ctx, PROPERTY, ['box_calls'])
     import rpyc
     from rpyc.core import brine
     rng = ctx.rng
